@@ -278,7 +278,46 @@ def one_trace(tid, kind, mode, decl, rctx, n, r, K, naccess):
         except Exception as ex:
             ev.append(dict(a="err", type=type(ex).__name__, during=e))
             break
+    else:
+        ev.extend(helper_events(mode, r, 3))
     return dict(id=tid, cfg=cfg, ev=ev)
+
+
+HELPER_ITEMS = ["x", "class", "y", "z", "index", "ctx.k", "ctx.k.s", "ctx", "c", "xy", "clas", "k", "ind", "y z", ""]
+
+
+def helper_events(mode, r, count):
+    """the static mode-string helpers of ModeWrapper (used by every collator to find / replace an item of a batch):
+    has_item, get_item_index, get_item, set_item, add_item on the trace's mode string and on sub-modes of it"""
+    from kappadata.wrappers import ModeWrapper
+    ev = []
+    for _ in range(count):
+        hm = list(mode) if r.random() < 0.5 else r.sample(list(mode), r.randint(1, len(mode)))
+        hm = list(dict.fromkeys(hm)) if r.random() < 0.5 else hm
+        item = r.choice(hm) if r.random() < 0.5 else r.choice(HELPER_ITEMS[:-2])
+        ms = " ".join(hm)
+        e = dict(a="helper", hm=hm, hi=item, has=False, idx=-1, got=0, changed=[], setlen=0, added=[], exc="")
+        try:
+            e["has"] = bool(ModeWrapper.has_item(mode=ms, item=item))
+            try:
+                e["idx"] = int(ModeWrapper.get_item_index(mode=ms, item=item))
+            except ValueError:
+                e["idx"] = -1
+            batch = tuple(f"p{p + 1}" for p in range(len(hm)))  # position tags (a bare tag is not a tuple)
+            if item in hm:
+                got = ModeWrapper.get_item(mode=ms, item=item, batch=batch if len(hm) > 1 or r.random() < 0.5 else batch[0])
+                e["got"] = int(got[1:]) if isinstance(got, str) and got[:1] == "p" else -1
+                new = ModeWrapper.set_item(mode=ms, item=item, batch=batch, value="new")
+                e["setlen"] = len(new)
+                e["changed"] = [p + 1 for p in range(min(len(new), len(batch))) if new[p] != batch[p]]
+                if any(new[p - 1] != "new" for p in e["changed"]):
+                    e["changed"].append(0)
+            added = ModeWrapper.add_item(mode=ms, item=item)
+            e["added"] = added.split(" ")
+        except Exception as ex:  # noqa
+            e["exc"] = type(ex).__name__
+        ev.append(e)
+    return ev
 
 
 def in_domain(mode):
